@@ -3,6 +3,7 @@
 package main
 
 import (
+	"crypto/tls"
 	proxyhttp "github.com/oauth2-proxy/oauth2-proxy/v7/pkg/http"
 	"github.com/ghodss/yaml"
 	"context"
@@ -131,7 +132,9 @@ func vfNewWorld(t *testing.T, prop, tier string, tape *vfTape) *vfWorld {
 	tr.DialContext = vfGlobalDial
 	tr.DisableKeepAlives = true
 	tr.Proxy = nil
-	tr.TLSClientConfig = nil
+	// (in the shipped binary the default transport always has a TLS configuration by the time upstream transports are cloned from it:
+	// net/http's HTTP/2 set-up creates one; here that one-time set-up has long happened, so an empty one stands in)
+	tr.TLSClientConfig = &tls.Config{}
 	if os.Getenv("VERIF_LOG") == "" {
 		logger.SetOutput(io.Discard)
 		logger.SetErrOutput(io.Discard)
